@@ -2,7 +2,10 @@
   Helper lemmas for the chunk-queue model (C17).
   Part 1: exact accounting — the counters always equal the bytes the chunks
           still hold and every file chunk lies inside its file (`QV`),
-          through every operation and every fault schedule.
+          through every operation and every fault schedule; and the FIFO
+          refinement of every operation that does not write temp files
+          (`specStep`, `step_refines`).  Part 2: Proofs/CqRes.lean (resources),
+          part 3: Proofs/CqSpill.lean (spill paths, full invariant).
 -/
 import LtVerif.Model.Cq
 namespace LtVerif.Cq
@@ -1782,8 +1785,6 @@ theorem cqmemWritten_spec {toTemp : World → Cq → World × Cq × Bool} (ht : 
         ⟨hq.valid, by simp only; omega⟩
       have hle : dlen ≤ remSum dest.chunks := by rw [hc]; simp only [remSum_append]; omega
       exact ⟨hm.1.fresh hf, hm.1.grows, hm.2 hq1 hle⟩
-
-theorem effFault_cases (q : Cq) (f : WFault) : True := trivial
 
 theorem cqmemWrite_spec {toTemp : World → Cq → World × Cq × Bool} (ht : ToTempOK toTemp)
     (w : World) (dest : Cq) (dbytes sbytes : Bytes)
